@@ -8,3 +8,8 @@ import XzVerif.Props.C13
 #print axioms Props.C13.C13_n_le_len
 #print axioms Props.C13.C13_schedule_independent
 #print axioms Props.C13.C13_lens_agree
+#print axioms Props.C13.C13_decoder_loop_refines
+#print axioms Props.C13.C13_decoder_zero_length
+#print axioms Props.C13.C13_decoder_loop_schedule
+#print axioms Props.C13.C13_chain_refines
+#print axioms Props.C13.C13_chain_schedule
